@@ -113,6 +113,28 @@ func LoadKnown(path string) (*KnownFile, error) {
 
 // Finish prints the report, writes evidence and the violations file, and returns the exit code.
 func (r *Result) Finish(verifDir, tier string, seed int64, wall float64, known *KnownFile, extra map[string]any) int {
+	// vacuity guard over the whole rule list: every rule the property declares as decided must have produced at least
+	// one obligation (of any status) - a rule that matched nothing passes vacuously and says so here instead
+	if len(r.Obls) > 0 || len(r.Decided) > 0 {
+		have := map[string]bool{}
+		for _, o := range r.Obls {
+			have[o.Rule] = true
+		}
+		aborted := have["R0.panic"] || have["R0.load"]
+		for _, d := range r.Decided {
+			head := d
+			if i := strings.IndexByte(d, ' '); i > 0 {
+				head = d[:i]
+			}
+			for _, id := range strings.Split(head, "/") {
+				if len(id) < 2 || id[0] != 'R' || have[id] || aborted {
+					continue
+				}
+				// some other obligation of the same rule family counts when the model could not be built (R1.0 etc.)
+				r.Unk(id, "rule#no-obligation", "-", "the rule is declared as decided but produced no obligation on this tree: nothing it looks for was found, so it would pass vacuously")
+			}
+		}
+	}
 	sort.SliceStable(r.Obls, func(i, j int) bool {
 		a, b := r.Obls[i], r.Obls[j]
 		if a.Rule != b.Rule {
